@@ -26,7 +26,26 @@ def wigm_count(self: 'WigmRule'):
     ensures(ghost('nH') == 0, name='every candidate is decided: nobody is left hopeful')
     ensures(ghost('nP') == 0, name='no transfer is left pending')
     ensures(ghost('nW') == old(ghost('nW')), name='withdrawn candidates never change')
+    ensures(ghost('nE') >= E.electionProfile.nSeats, name='the seats are filled (W2)')
     modifies_all(Candidate, 'state', 'pending', 'vote')
     modifies_all(Ballot, 'index', 'weight')
     modifies(E, 'quota', 'exhausted', 'round', 'surplus')
     modifies_ghost('nH', 'nE', 'nD', 'nP', 'nlog', 'lasttag', 'lastmsg')
+
+
+@specfn
+def holds_quota(c, E):
+    "the rule's own 'has a quota' test (strict under exact arithmetic)"
+    if exact_arith():
+        return c.vote > E.quota
+    return c.vote >= E.quota
+
+
+@loops('droop.rules.wigm.Rule.count', anchor='while#1')
+def wigm_main_loop(self):
+    E = self.E
+    invariant(forall('ref:droop.candidate.Candidate',
+                     lambda c: implies(and_(in_election(c), c.state == 'elected', truthy(c.pending)), holds_quota(c, E))))
+    invariant(E.quota > E.V0)
+    invariant(ghost('nH') + ghost('nE') >= E.electionProfile.nSeats)       # W2: enough candidates remain to fill the seats
+    variant(2 * ghost('nH') + ghost('nP'))
